@@ -65,6 +65,9 @@ func (e *fnEnc) call(in ssa.Instruction, cc *ssa.CallCommon) []Term {
 			e.safe("nil-invoke", fmt.Sprintf("(not (= %s ty.nil))", recv.S), pos)
 		}
 	}
+	if key == "sort.Slice" {
+		return e.sortSlice(in, cc, args)
+	}
 	if key != "" {
 		con := e.V.CS.ByKey[key]
 		if con == nil {
@@ -121,6 +124,33 @@ func (e *fnEnc) call(in ssa.Instruction, cc *ssa.CallCommon) []Term {
 		e.havocAllHeaps()
 	} else {
 		for _, k := range sortedBoolKeys(union) {
+			if i := strings.Index(k, "@"); i >= 0 {
+				// located entry: sound over-approximation across candidates is a
+				// store at the location evaluated in the candidate's own
+				// binding; all our candidates share parameter names, so use the
+				// first candidate declaring it.
+				for _, c := range cands {
+					cn := e.V.CS.ByKey[c.Key]
+					if cn == nil {
+						continue
+					}
+					has := false
+					for _, a := range cn.Assigns {
+						if a == k {
+							has = true
+						}
+					}
+					if has {
+						extra := map[string]Term{}
+						for i, fv := range c.Fn.FreeVars {
+							extra[fv.Name()] = Term{fmt.Sprintf("(%s.c%d %s)", c.Sym, i, f.S), c.Caps[i], c.CapTs[i]}
+						}
+						e.havocLocated(cn, k[:i], k[i+1:], args, extra, pre)
+						break
+					}
+				}
+				continue
+			}
 			h := U.heapByKey(k)
 			if h != nil {
 				e.curHeap[k] = e.heapVersion(h)
@@ -139,7 +169,7 @@ func (e *fnEnc) call(in ssa.Instruction, cc *ssa.CallCommon) []Term {
 		// captures
 		extra := map[string]Term{}
 		for i, fv := range c.Fn.FreeVars {
-			extra[fv.Name()] = Term{fmt.Sprintf("(%s.c%d %s)", c.Sym, i, f.S), c.Caps[i], fv.Type()}
+			extra[fv.Name()] = Term{fmt.Sprintf("(%s.c%d %s)", c.Sym, i, f.S), c.Caps[i], c.CapTs[i]}
 		}
 		extra["self"] = f
 		e.applyContractAt(cn, args, res, pos, guard, shortKey(c.Key), pre, post, extra)
@@ -151,6 +181,18 @@ func (e *fnEnc) call(in ssa.Instruction, cc *ssa.CallCommon) []Term {
 			}
 			for _, k := range sortedBoolKeys(union) {
 				if !mine[k] {
+					if i := strings.Index(k, "@"); i >= 0 {
+						k = k[:i]
+						skip := false
+						for m := range mine {
+							if strings.HasPrefix(m, k+"@") || m == k {
+								skip = true
+							}
+						}
+						if skip {
+							continue
+						}
+					}
 					h := U.heapByKey(k)
 					e.assert(fmt.Sprintf("(=> (and %s %s) (= %s %s))", e.curReach, guard, e.heapTermIn(post)(h), e.heapTermIn(pre)(h)))
 				}
@@ -158,6 +200,43 @@ func (e *fnEnc) call(in ssa.Instruction, cc *ssa.CallCommon) []Term {
 		}
 	}
 	return res
+}
+
+// havocLocated: the callee may change heap key only at the location loc (an
+// expression over its parameters): H' = store(H, loc, fresh).
+func (e *fnEnc) havocLocated(con *Contract, key, loc string, args []Term, extra map[string]Term, pre heapState) {
+	h := e.U.heapByKey(key)
+	if h == nil {
+		e.fail("%s:%d: assigns: unknown heap %q", con.File, con.Line, key)
+	}
+	env := e.baseEnv()
+	env.pkg = e.V.pkgOfKey(con.Key, e.fn.Pkg.Pkg)
+	vars := map[string]Term{}
+	for k, v := range extra {
+		vars[k] = v
+	}
+	for i, p := range con.Params {
+		if i < len(args) {
+			vars[p] = args[i]
+		}
+	}
+	env.vars = vars
+	env.heap = pre
+	env.old = pre
+	lx, err := parseCExpr(loc)
+	if err != nil {
+		e.fail("%s:%d: assigns location: %v", con.File, con.Line, err)
+	}
+	lt, err := env.tr(lx, "Int")
+	if err != nil {
+		e.fail("%s:%d: assigns location: %v", con.File, con.Line, err)
+	}
+	nv := e.fresh("hv.loc", h.Elem)
+	e.typeFacts(Term{nv, h.Elem, nil}, "")
+	cur := e.curHeapTerm(h)
+	ver := e.heapVersion(h)
+	e.assert(fmt.Sprintf("(= %s (store %s %s %s))", ver, cur, lt.S, nv))
+	e.curHeap[h.Key] = ver
 }
 
 func shortKey(k string) string {
@@ -184,6 +263,10 @@ func (e *fnEnc) applyContract(con *Contract, args []Term, res []Term, pos token.
 			if a == "*" {
 				e.havocAllHeaps()
 				break
+			}
+			if i := strings.Index(a, "@"); i >= 0 {
+				e.havocLocated(con, a[:i], a[i+1:], args, nil, pre)
+				continue
 			}
 			h := U.heapByKey(a)
 			if h == nil {
@@ -350,7 +433,16 @@ func (e *fnEnc) builtin(in ssa.Instruction, b *ssa.Builtin, cc *ssa.CallCommon) 
 			return e.havocValue(v, "append")
 		}
 		name := e.fresh("app", s.Sort)
-		e.assert(fmt.Sprintf("(= %s (%s.cat %s %s))", name, s.Sort, s.S, t.S))
+		if elems, isLit := e.lits[t.S]; isLit {
+			term := s.S
+			for j, el := range elems {
+				term = fmt.Sprintf("(%s.snoc %s %s)", s.Sort, term, el)
+				e.assert(fmt.Sprintf("(= (%s.at %s (+ (%s.len %s) %d)) %s)", s.Sort, name, s.Sort, s.S, j, el))
+			}
+			e.assert(fmt.Sprintf("(= %s %s)", name, term))
+		} else {
+			e.assert(fmt.Sprintf("(= %s (%s.cat %s %s))", name, s.Sort, s.S, t.S))
+		}
 		e.assert(fmt.Sprintf("(= (%s.len %s) (+ (%s.len %s) (%s.len %s)))", s.Sort, name, s.Sort, s.S, s.Sort, t.S))
 		return []Term{{name, s.Sort, v.Type()}}
 	case "copy":
@@ -369,5 +461,43 @@ func (e *fnEnc) builtin(in ssa.Instruction, b *ssa.Builtin, cc *ssa.CallCommon) 
 		return e.havocValue(v, "builtin")
 	}
 	_ = U
+	return nil
+}
+
+// sortSlice models sort.Slice(x, less): x is a slice loaded from a local
+// variable; the call permutes its elements in place. Our slices are values,
+// so the variable is re-assigned a fresh slice s' = sortedBy(s, less) that is
+// a permutation of s (A-SORT: sort.Slice sorts by less).
+func (e *fnEnc) sortSlice(in ssa.Instruction, cc *ssa.CallCommon, args []Term) []Term {
+	mi, ok := cc.Args[0].(*ssa.MakeInterface)
+	var ld *ssa.UnOp
+	if ok {
+		ld, ok = mi.X.(*ssa.UnOp)
+	}
+	if !ok || ld.Op != token.MUL {
+		e.unsupported(in, "sort.Slice on a slice that is not read from a local variable")
+		return nil
+	}
+	d := e.descOf(ld.X)
+	if d == nil || (d.kind != aDeref && d.kind != aHeapField) {
+		e.unsupported(in, "sort.Slice on an untracked slice variable")
+		return nil
+	}
+	s := e.get(ld)
+	less := args[1]
+	srt := s.Sort
+	sym := "sortedBy." + sortTag(srt)
+	if _, ok := e.U.Sigs[sym]; !ok {
+		e.U.Sigs[sym] = &Sig{Name: sym, Args: []string{srt, "Fn"}, Res: srt}
+		e.U.extra = append(e.U.extra, fmt.Sprintf("(declare-fun %s (%s Fn) %s)", sym, srt, srt))
+	}
+	ns := e.fresh("sorted", srt)
+	pidx := fmt.Sprintf("pidx!%d", e.n)
+	e.decls = append(e.decls, fmt.Sprintf("(declare-fun %s (Int) Int)", pidx))
+	e.assert(fmt.Sprintf("(= %s (%s %s %s))", ns, sym, s.S, less.S))
+	e.assert(fmt.Sprintf("(= (%s.len %s) (%s.len %s))", srt, ns, srt, s.S))
+	e.assert(fmt.Sprintf("(forall ((i Int)) (! (=> (and (<= 0 i) (< i (%[1]s.len %[2]s))) (and (<= 0 (%[4]s i)) (< (%[4]s i) (%[1]s.len %[3]s)) (= (%[1]s.at %[2]s i) (%[1]s.at %[3]s (%[4]s i))))) :pattern ((%[1]s.at %[2]s i))))", srt, ns, s.S, pidx))
+	e.storeDesc(d, Term{ns, srt, s.T})
+	e.note("sort.Slice modelled as re-assignment of the sorted permutation (A-SORT)")
 	return nil
 }
